@@ -78,7 +78,9 @@ func (g *Gen) faultScript(p *Plan, mix FaultMix, horizon int) {
 			case "logclosed":
 				r.Class, r.Msg, r.Kind = hb.ExIOException, hb.LogClosedMsg, "Mutate"
 			case "app":
-				r.Class, r.Msg, r.Count = hb.AppClasses[g.R.Intn(len(hb.AppClasses))], "injected application error", 1
+				// one to three consecutive actions are refused: within one multi
+				// response each caller must get the exception of its own action
+				r.Class, r.Msg, r.Count = hb.AppClasses[g.R.Intn(len(hb.AppClasses))], "injected application error", []int{1, 1, 2, 3}[g.R.Intn(4)]
 				r.Level = "action"
 			}
 			if g.R.Chance(0.3) {
